@@ -36,6 +36,24 @@ import re
 props = [json.loads(l) for l in open("/verif/properties.jsonl")]
 exec(open("/verif/manifest_table.py").read())
 
+# additions made while the checks were strengthened (appended to the level text)
+EXTRA = {
+ "C01": " Also: two raw KCP cores (stream and message mode, fragmented messages up to and including exactly 256 fragments) under the same fault model, and sessions whose MTU, stream mode and no-delay mode are changed by the application in mid-transfer.",
+ "C02": " Always-on invariant O-silence in every session-level run: a session holding unsent data with nothing unacknowledged in flight, or facing a zero window, hands something to the transport at least every 150 virtual seconds.",
+ "C04": " At session level an admission oracle keeps its own view of the window last advertised to each sender (a packet reconstructed by FEC tells nothing new); stratum fec-window combines FEC, loss, a small receive window and a slow reader.",
+ "C05": " Also: the FEC decoder alone under forged input (fec-fuzz) and a live session pair under content-valid forgeries - re-sealed header edits, Reed-Solomon-consistent forged groups that make the decoder reconstruct a packet of the forger's choosing, window-ignoring PUSH floods, raw short/truncated/bit-flipped/extended datagrams (forge-sess).",
+ "C06": " Corrupted datagrams also come from strangers' addresses (at dialled sessions, also as the very first datagram), and after each one a duplicate of a genuine datagram from the real peer must still be counted as received; a process crash while such a datagram is being processed is attributed to this property through a journal phase mark.",
+ "C11": " Strata: long accept stall with more peers than the backlog holds (established sessions must keep delivering), the application closing sessions the listener has replaced, the application's Close held at a yield point while the same peer's new conversation is processed (close-race), foreign sources on the peer's own host with another port.",
+ "C13": " A third of the runs use read buffers smaller than a message (partial reads hand the remainder to the next blocked reader).",
+ "C15": " Strata that hold a goroutine at a yield point: the listener's receive goroutine while the application closes the listener (listener-close); one of Close itself / post-processing / a scheduled update / the read loops / a blocking Read or Write across the scripted Closes (close-yield). The forged-input scenarios run under the buffer sanitizer for this property as well. SetDUP is part of the drawn configuration.",
+ "C16": " Session-level convergence stratum: over a clean FIFO path the receiver sees one uninterrupted run and its decoder's effective ratio (hook H1) must be the sender's afterwards; related ratio pairs (same data count, same parity count, same sum, swapped, equal counts at the sender) are drawn deliberately.",
+ "C17": " Deadline classes include deadlines centuries away (never due within a run).",
+ "C18": " A third of the session-level clean-path runs start near 2^32 / 2^31 ms of the library's clock; SetNoDelay is applied in mid-transfer in both directions (the RTO bound follows the mode).",
+ "C19": " A run that never comes back because the library deadlocked on a mutex is reported as a violation of this property (worker hang watchdog with goroutine dump), as for C02, C03, C11, C13, C15.",
+}
+for k, t in EXTRA.items():
+    CHECKS[k]["level_claimed"]["text"] += t
+
 m = {
  "version": 1,
  "setup_cmd": "cd /verif && ./check setup",
